@@ -83,3 +83,51 @@ package csi
 //@ lemma[C16,C04] bv overlapmember: forall k uint32, b1 int64, e1 int64, b2 int64, e2 int64, minShift uint32, depth uint32 ::
 //@     cGeom(minShift, depth) && cValid(b1, e1, minShift, depth) && cValid(b2, e2, minShift, depth) && b1 < e2 && b2 < e1 &&
 //@     cIsBin(k, depth) && cContains(k, b2, e2, minShift, depth) ==> cOverlaps(k, b1, e1, minShift, depth)
+
+// Reading a CSI index (C11): whatever the stream delivers, the readers return
+// an index or an error. Counts read from the stream are checked before they
+// size an allocation, loops run over the allocated lengths and terminate.
+// binary.Read, sort.Sort and sort.IsSorted are modelled by the verifier
+// (arbitrary value of the target type / arbitrary order of the elements).
+//@ trusted func ext:fmt.Errorf
+//@   ensures result != nil
+//@ trusted func ext:errors.New
+//@   ensures result != nil
+//@ trusted func ext:io.ReadFull
+//@   modifies buf[:], object(r).err
+//@   ensures 0 <= n && n <= len(buf)
+//@   ensures err == nil <==> n == len(buf)
+
+//@ func makeOffset
+//@   inline
+
+//@ func readChunks
+//@   mode bv
+//@   props C11
+//@   decoder
+//@   loop 0 invariant @idx 0 <= i && i <= len(chunks)
+//@   loop 0 decreases len(chunks) - i
+
+//@ func readStats
+//@   mode bv
+//@   props C11
+//@   decoder
+
+//@ func readBins
+//@   mode bv
+//@   props C11
+//@   decoder
+//@   loop 0 invariant @idx 0 <= i && i <= len(bins) && fresh(bins)
+//@   loop 0 decreases len(bins) - i
+
+//@ func readIndices
+//@   mode bv
+//@   props C11
+//@   decoder
+//@   loop 0 invariant @idx 0 <= i && i <= len(idx)
+//@   loop 0 decreases len(idx) - i
+
+//@ func ReadFrom
+//@   mode bv
+//@   props C11
+//@   decoder
